@@ -113,7 +113,9 @@ def reducible(ctx, fx):
             # the loop variable is whatever the loop condition compares with data_.size()
             iv = None
             if len(loops) == 1 and loops[0]["term"].get("cond"):
-                m = re.fullmatch(r"\((\w+) < this->data_\.size\(\)\)", SN(lit(loops[0]["term"]["cond"])[0]))
+                # a bound hoisted into a single-definition local (`const auto n = data_.size()`) is looked through
+                dfs = {k: v for k, v in fn.defs().items() if v is not None and "data_.size()" in S(v)}
+                m = re.fullmatch(r"\((\w+) < this->data_\.size\(\)\)", SN(lit(loops[0]["term"]["cond"])[0], dfs))
                 iv = m.group(1) if m else None
             if iv is None:
                 det.append("loop is not over [.., data_.size())")
